@@ -769,9 +769,10 @@ def check_flags(k):
                     continue              # Python itself rejects the combination (STRICT boundary)
                 got = value_of(op(view_of(va), view_of(vb)))
                 got2 = value_of(op(view_of(va), mb))
-                if (got != want or got2 != want) and bad is None:
-                    bad = {"flag class": cls.__name__, "expression": f"{ma!r} {opn} {mb!r}", "view": got, "view with member": got2,
-                           "python": want}
+                got3 = value_of(op(ma, view_of(vb)))           # the member on the left: the view's reflected operator
+                if (got != want or got2 != want or got3 != want) and bad is None:
+                    bad = {"flag class": cls.__name__, "expression": f"{ma!r} {opn} {mb!r}", "view OP view": got, "view OP member": got2,
+                           "member OP view": got3, "python": want}
     ok = bad is None
     obs.append({"name": f"{name}::operators-equal-enum.Flag({cases} cases)", "kind": "post", "status": "proved" if ok else "refuted",
                 "backend": "closed(exhaustive)", "time_s": 0.0, **({} if ok else {"failing_input": bad})})
